@@ -18,10 +18,20 @@ What is what:
             initialize / disabled→enabled transition), used only by theorems.
 * `calls` / `cbs`  ghost logs (newest first): invocations of user handlers, callbacks of signal events.
 
-Not modelled (see props/C04/plugin.py ASSUMPTIONS): the failure branch of `sigaction` (invalid signal numbers;
-the op alphabet has valid signals only), the capacity of the pipe (64 KiB = 16384 undelivered signals),
-the 10-int read chunks of `CommonLoop::onSignal` (invisible: once the pipe is closed inside a chunk every
-later lookup fails because the subscriber map is empty), `SA_SIGINFO` combined with `SIG_IGN`.
+Round 2: the model follows the REPAIRED code (patches/C04-01…03); the code as found is kept behind the `Fixes`
+switches and used only by the `_counterexample` theorems:
+* `initDisables`   — `SignalEventImpl::initialize` calls `disable()` first (as found: no guard, no re-subscription);
+* `enableRollback` — `SignalEventImpl::enable` unsubscribes what it had subscribed when a later `subscribeSignal`
+                     fails (`sigaction` → EINVAL for SIGKILL/SIGSTOP; as found: the event stays half subscribed);
+* `revalidate`     — `CommonLoop::onSignal` checks every entry of the subscriber snapshot against the live set
+                     before calling it (as found: an event disabled or deleted by an earlier callback is called).
+Callbacks are scripts (enable/disable/destroy of events of the same loop) carried in the event object.
+Signal ids 0 and 3 stand for SIGKILL and SIGSTOP (ids ascend with the signal numbers, so a sorted id list is the
+iteration order of `std::set<int>`): `sigaction` fails on them.
+The order in which `onSignal` walks its snapshot (pointer order of a `std::set<SignalSubscribuer*>`) is an oracle
+argument of `pass`; theorems quantify over every oracle.
+Not modelled (see props/C04/plugin.py ASSUMPTIONS): the capacity of the pipe (64 KiB = 16384 undelivered
+signals), `SA_SIGINFO` combined with `SIG_IGN`, scripts acting on events of another loop (another thread).
 -/
 namespace Tbox.C04
 
@@ -65,6 +75,24 @@ def del (x : Nat) (l : List Nat) : List Nat := l.filter (fun y => y != x)
 
 def upd {β : Type} (f : Nat → β) (k : Nat) (v : β) : Nat → β := fun i => if i = k then v else f i
 
+/-- `sigaction(g, …)` succeeds (ids 0 / 3 = SIGKILL / SIGSTOP: EINVAL) -/
+def sigValid (g : Nat) : Bool := g != 0 && g != 3
+
+/-- what a callback script may do (to events of its own loop) -/
+inductive Act where
+  | enable (j : Nat) | disable (j : Nat) | destroy (j : Nat)
+deriving Repr, DecidableEq
+
+/-- which of the three repairs are in the code -/
+structure Fixes where
+  initDisables : Bool
+  enableRollback : Bool
+  revalidate : Bool
+deriving Repr, DecidableEq
+
+def repaired : Fixes := ⟨true, true, true⟩
+def asFound : Fixes := ⟨false, false, false⟩
+
 structure Ev where
   alive   : Bool := false
   inited  : Bool := false
@@ -73,6 +101,7 @@ structure Ev where
   sigs    : List Nat := []
   loop    : Nat := 0
   fired   : Nat := 0
+  script  : List Act := []
 deriving Repr, DecidableEq
 
 /-- one callback of a signal event, as logged -/
@@ -85,6 +114,7 @@ structure Cb where
   firedBefore : Nat     -- ghost: callbacks since the last enablement, before this one
   evLoop : Nat          -- ghost: the loop the event belongs to
   subscribed : Bool     -- ghost: at entry of onSignal the event was enabled and `sig` was in its set
+  alive : Bool          -- ghost: the object existed (false = the call is a use-after-free)
 deriving Repr, DecidableEq
 
 structure State where
@@ -145,28 +175,35 @@ def unsubscribe (s : State) (l g e : Nat) : State :=
       { s with subs := upd s.subs l m, os := os, ctxs := ctxs,
                hasPipe := upd s.hasPipe l false, pipe := upd s.pipe l [] }
 
-def subscribeAll (s : State) (l e : Nat) : List Nat → State
-  | [] => s
-  | g :: gs => subscribeAll (subscribe s l g e) l e gs
+/-- `subscribeSignal` reaches `sigaction` and it fails -/
+def subscribeFails (s : State) (l g : Nat) : Bool :=
+  (subsOf s l g).isEmpty && (fdsOf s g).isEmpty && !sigValid g
+
+/-- the failure path of `subscribeSignal`: the `operator[]`-created entries: the subscriber entry is erased
+again (and the pipe closed if the loop has no other subscription), the ctx entry stays -/
+def subscribeFail (s : State) (l g : Nat) : State :=
+  let m := (s.subs l).erase g
+  let ctxs := upd s.ctxs g (some (ctxOf s g))
+  if m.isEmpty then
+    { s with ctxs := ctxs, subs := upd s.subs l m, hasPipe := upd s.hasPipe l false, pipe := upd s.pipe l [] }
+  else
+    { s with ctxs := ctxs, subs := upd s.subs l m, hasPipe := upd s.hasPipe l true,
+             pipe := if s.hasPipe l then s.pipe else upd s.pipe l [] }
+
+/-- the loop of `enable()`: (state, signals subscribed by this call, all succeeded) -/
+def subscribeAllF (s : State) (l e : Nat) : List Nat → State × List Nat × Bool
+  | [] => (s, [], true)
+  | g :: gs =>
+    if subscribeFails s l g then (subscribeFail s l g, [], false)
+    else
+      let r := subscribeAllF (subscribe s l g e) l e gs
+      (r.1, g :: r.2.1, r.2.2)
 
 def unsubscribeAll (s : State) (l e : Nat) : List Nat → State
   | [] => s
   | g :: gs => unsubscribeAll (unsubscribe s l g e) l e gs
 
 def setEv (s : State) (e : Nat) (v : Ev) : State := { s with evs := upd s.evs e v }
-
-/-- `SignalEventImpl::initialize(const std::set<int>&, Mode)`: no guard, no re-subscription -/
-def initEv (s : State) (e : Nat) (sigs : List Nat) (oneshot : Bool) : State × Bool :=
-  let v := s.evs e
-  if !v.alive then (s, false) else
-  (setEv s e { v with sigs := sigs, oneshot := oneshot, inited := true, fired := 0 }, true)
-
-/-- `SignalEventImpl::enable` -/
-def enable (s : State) (e : Nat) : State × Bool :=
-  let v := s.evs e
-  if !v.alive then (s, false) else
-  let s1 := if v.inited then subscribeAll s v.loop e v.sigs else s
-  (setEv s1 e { v with enabled := true, fired := if v.enabled then v.fired else 0 }, true)
 
 /-- `SignalEventImpl::disable` -/
 def disable (s : State) (e : Nat) : State × Bool :=
@@ -175,6 +212,27 @@ def disable (s : State) (e : Nat) : State × Bool :=
   let s1 := if v.enabled then unsubscribeAll s v.loop e v.sigs else s
   (setEv s1 e { v with enabled := false }, true)
 
+/-- `SignalEventImpl::initialize(const std::set<int>&, Mode)` -/
+def initEv (fx : Fixes) (s : State) (e : Nat) (sigs : List Nat) (oneshot : Bool) : State × Bool :=
+  if !(s.evs e).alive then (s, false) else
+  let s1 := if fx.initDisables then (disable s e).1 else s
+  let v := s1.evs e
+  (setEv s1 e { v with sigs := sigs, oneshot := oneshot, inited := true, fired := 0 }, true)
+
+/-- `SignalEventImpl::enable` -/
+def enable (fx : Fixes) (s : State) (e : Nat) : State × Bool :=
+  let v := s.evs e
+  if !v.alive then (s, false) else
+  if v.inited then
+    let r := subscribeAllF s v.loop e v.sigs
+    if r.2.2 then
+      (setEv r.1 e { v with enabled := true, fired := if v.enabled then v.fired else 0 }, true)
+    else if fx.enableRollback && !v.enabled then
+      (unsubscribeAll r.1 v.loop e r.2.1, false)
+    else (r.1, false)
+  else
+    (setEv s e { v with enabled := true, fired := if v.enabled then v.fired else 0 }, true)
+
 /-- `~SignalEventImpl` -/
 def destroy (s : State) (e : Nat) : State × Bool :=
   let v := s.evs e
@@ -182,13 +240,13 @@ def destroy (s : State) (e : Nat) : State × Bool :=
   let s1 := (disable s e).1
   (setEv s1 e { s1.evs e with alive := false }, true)
 
-/-- `loop->newSignalEvent()` on loop l -/
-def newEv (s : State) (l : Nat) : State :=
-  { setEv s s.nEv { alive := true, loop := l } with nEv := s.nEv + 1 }
+/-- `loop->newSignalEvent()` on loop l + `setCallback(script)` -/
+def newEv (s : State) (l : Nat) (script : List Act) : State :=
+  { setEv s s.nEv { alive := true, loop := l, script := script } with nEv := s.nEv + 1 }
 
-/-- the user calls `sigaction(g, d, nullptr)`; not while tbox's handler is installed -/
+/-- the user calls `sigaction(g, d, nullptr)`; not while tbox's handler is installed; EINVAL for SIGKILL/SIGSTOP -/
 def setDisp (s : State) (g : Nat) (d : Disp) : State × Bool :=
-  if (s.os g).kind = .tbox then (s, false) else ({ s with os := upd s.os g d }, true)
+  if (s.os g).kind = .tbox || !sigValid g then (s, false) else ({ s with os := upd s.os g d }, true)
 
 /-- `for (int fd : write_fds) write(fd, &signo, sizeof signo)` — `write_fds` is a set: one write per loop -/
 def appendPipes (pipe : Nat → List Nat) (g : Nat) (fds : List Nat) : Nat → List Nat :=
@@ -200,7 +258,7 @@ deriving DecidableEq, Repr
 /-- delivery of signal g to the process -/
 def raise (s : State) (g : Nat) : State × RaiseOut :=
   match (s.os g).kind with
-  | .dfl => (s, .killed)            -- default action of SIGUSRx / SIGRTMIN+k: terminate (the harness does not raise)
+  | .dfl => (s, .killed)            -- default action: terminate (the harness does not raise)
   | .ign => (s, .ignored)
   | .handler h => ({ s with calls := (h, g) :: s.calls }, .handled)
   | .tbox =>
@@ -211,60 +269,96 @@ def raise (s : State) (g : Nat) : State × RaiseOut :=
       | _ => s.calls
     ({ s with ctxs := upd s.ctxs g (some c), calls := calls, pipe := appendPipes s.pipe g c.fds }, .handled)
 
-/-- `SignalEventImpl::onSignal(g)` for event e, called from loop l's dispatch -/
-def evOnSignal (s : State) (l e g : Nat) : State :=
+/-- one action of a callback script running on loop l: only events of that loop (that thread) -/
+def act (fx : Fixes) (s : State) (l : Nat) : Act → State
+  | .enable j => if (s.evs j).loop = l then (enable fx s j).1 else s
+  | .disable j => if (s.evs j).loop = l then (disable s j).1 else s
+  | .destroy j => if (s.evs j).loop = l then (destroy s j).1 else s
+
+def runScript (fx : Fixes) (s : State) (l : Nat) : List Act → State
+  | [] => s
+  | a :: as => runScript fx (act fx s l a) l as
+
+/-- `SignalEventImpl::onSignal(g)` for event e, called from loop l's dispatch: one-shot disables itself
+first, then the user callback (its script) -/
+def evOnSignal (fx : Fixes) (s : State) (l e g : Nat) : State :=
   let v := s.evs e
   let s1 := if v.oneshot then (disable s e).1 else s
   let v1 := s1.evs e
   let s2 := setEv s1 e { v1 with fired := v1.fired + 1 }
-  { s2 with cbs := { ev := e, sig := g, loop := l, enabledInCb := v1.enabled, oneshot := v.oneshot,
-                     firedBefore := v.fired, evLoop := v.loop,
-                     subscribed := v.enabled && v.sigs.contains g } :: s2.cbs }
+  let s3 := { s2 with cbs := { ev := e, sig := g, loop := l, enabledInCb := v1.enabled, oneshot := v.oneshot,
+                               firedBefore := v.fired, evLoop := v.loop,
+                               subscribed := v.enabled && v.sigs.contains g, alive := v.alive } :: s2.cbs }
+  runScript fx s3 l v.script
 
-/-- `for (auto s : todo) s->onSignal(signo)` over the COPY `todo` of the subscriber set -/
-def dispatch (s : State) (l g : Nat) : List Nat → State
+/-- `for (auto s : todo) …` over the COPY `todo` of the subscriber set; the repaired code skips an entry that is
+no longer in the live set -/
+def dispatch (fx : Fixes) (s : State) (l g : Nat) : List Nat → State
   | [] => s
-  | e :: es => dispatch (evOnSignal s l e g) l g es
+  | e :: es =>
+    if fx.revalidate && !(subsOf s l g).contains e then dispatch fx s l g es
+    else dispatch fx (evOnSignal fx s l e g) l g es
 
-/-- the body of `CommonLoop::onSignal` for the signal numbers read from the pipe -/
-def passItems (s : State) (l : Nat) : List Nat → State
+/-- the snapshot in the order the implementation walks it: `ord` first (the oracle), the rest after -/
+def reorder (ord xs : List Nat) : List Nat :=
+  ord.filter (fun e => xs.contains e) ++ xs.filter (fun e => !ord.contains e)
+
+/-- the signal numbers of one `read()` (at most 10) -/
+def passChunk (fx : Fixes) (s : State) (l : Nat) (ord : List Nat) : List Nat → State
   | [] => s
-  | g :: gs => passItems (dispatch s l g (subsOf s l g)) l gs
+  | g :: gs => passChunk fx (dispatch fx s l g (reorder ord (subsOf s l g))) l ord gs
 
-/-- one pass of loop l: the pipe (if any) is drained and every number dispatched -/
-def pass (s : State) (l : Nat) : State :=
-  passItems { s with pipe := upd s.pipe l [] } l (s.pipe l)
+/-- `CommonLoop::onSignal`: `while (signal_read_fd_ != -1) { read ≤ 10 ints; dispatch each; }` until EAGAIN.
+A callback may close the pipe (what was not yet read is lost, the rest of the chunk in hand is still
+dispatched) and a later one may create a new, empty one.  `fuel` bounds the iterations (`pass` gives enough:
+the pending numbers only get fewer). -/
+def passLoop (fx : Fixes) (l : Nat) (ord : List Nat) : Nat → State → State
+  | 0, s => s
+  | fuel + 1, s =>
+    if !s.hasPipe l then s else
+    match s.pipe l with
+    | [] => s
+    | items =>
+      let s1 := { s with pipe := upd s.pipe l (items.drop 10) }
+      passLoop fx l ord fuel (passChunk fx s1 l ord (items.take 10))
+
+/-- one pass of loop l -/
+def pass (fx : Fixes) (s : State) (l : Nat) (ord : List Nat) : State :=
+  passLoop fx l ord ((s.pipe l).length + 1) s
 
 inductive Op where
-  | newEv (l : Nat)
+  | newEv (l : Nat) (script : List Act)
   | init (e : Nat) (sigs : List Nat) (oneshot : Bool)
   | enable (e : Nat)
   | disable (e : Nat)
   | destroy (e : Nat)
   | setDisp (g : Nat) (d : Disp)
   | raise (g : Nat)
-  | pass (l : Nat)
+  | pass (l : Nat) (ord : List Nat)
 deriving Repr, DecidableEq
 
-/-- the histories the property quantifies over: `initialize` is given a set and is not called on an
-enabled event; the user installs ordinary dispositions (never tbox's own handler) -/
+/-- the histories the property quantifies over: `initialize` is given a set; the user installs ordinary
+dispositions (never tbox's own handler); a callback does not delete its own event; an oracle is a list
+without repetitions -/
 def valid (s : State) : Op → Bool
-  | .init e sigs _ => !(s.evs e).enabled && decide sigs.Nodup
+  | .newEv _ script => script.all (fun a => a != .destroy s.nEv)
+  | .init _ sigs _ => decide sigs.Nodup
   | .setDisp _ d => decide (d.kind ≠ .tbox)
+  | .pass _ ord => decide ord.Nodup
   | _ => true
 
-def step (s : State) : Op → State
-  | .newEv l => newEv s l
-  | .init e sigs o => (initEv s e sigs o).1
-  | .enable e => (enable s e).1
+def step (fx : Fixes) (s : State) : Op → State
+  | .newEv l sc => newEv s l sc
+  | .init e sigs o => (initEv fx s e sigs o).1
+  | .enable e => (enable fx s e).1
   | .disable e => (disable s e).1
   | .destroy e => (destroy s e).1
   | .setDisp g d => (setDisp s g d).1
   | .raise g => (raise s g).1
-  | .pass l => pass s l
+  | .pass l ord => pass fx s l ord
 
-def exec (s : State) : List Op → Option State
+def exec (fx : Fixes) (s : State) : List Op → Option State
   | [] => some s
-  | op :: ops => if valid s op then exec (step s op) ops else none
+  | op :: ops => if valid s op then exec fx (step fx s op) ops else none
 
 end Tbox.C04
